@@ -109,6 +109,7 @@ def anneal[T](
     best_solution, best_obj = solution, obj
     initial_temp = temperature
 
+    iteration = 0
     for iteration in range(1, max_iter + 1):
         temperature = schedule(initial_temp, iteration, max_iter)
 
